@@ -1,7 +1,9 @@
 (* C37 — correspondence: the model is run on the DDL script the implementation executed, with the candidate
    sequences the real AutoGenerateTag draws (reported by the harness per seed key) standing for the random
    source; the oracle is the property evaluated on what the implementation returned:
-   (a) every stored schema of the final root comes back from SerializeSchema/DeserializeSchema with every modelled field equal,
+   (a) every stored schema of the final root (and of the extra repository with fulltext / vector / spatial indexes) comes back from
+       SerializeSchema/DeserializeSchema with every modelled field equal and the serialization is deterministic; the same for the
+       foreign key collections through SerializeForeignKeys/DeserializeForeignKeys,
    (b) the second branch, the independent repository and the merged branch have the same tables, columns and tags
        as the first branch, and the merge was clean,
    (c) the tags of every observed root are pairwise distinct. *)
@@ -19,7 +21,8 @@ Record input := {
   i_main : list (ddl * bool);               (* statement, accepted by the implementation? (rejected ones are skipped) *)
   i_branch : list (ddl * bool);
   i_cands : list (seed_key * list N);       (* what the real generator draws for the seeds the script needs *)
-  i_schemas : list sschema                  (* the stored schemas of the final root, as read through the doltdb API *)
+  i_schemas : list sschema;                 (* the stored schemas of the final root (and of the extra repository), as read through the doltdb API *)
+  i_fks : list (list sfk)                   (* the foreign key collections of those roots *)
 }.
 
 Record obs := {
@@ -27,7 +30,10 @@ Record obs := {
   o_b2 : root; o_envb : root; o_merged : root;
   o_merge : N;                              (* 0 clean, 1 conflicts / schema conflicts reported, 2 error *)
   o_back : list (option sschema);           (* DeserializeSchema (SerializeSchema s) for each s of i_schemas; None = error *)
-  o_flags : list bool                       (* per table: SchemasAreEqual, TypeInfo.Equals for every column, same SHOW CREATE TABLE in A and B *)
+  o_flags : list bool;                      (* per table: SchemasAreEqual, TypeInfo.Equals for every column, same SHOW CREATE TABLE in A and B,
+                                               SerializeSchema deterministic (twice / after the round trip / in A and B: same bytes; same schema hash in A, B and on b2) *)
+  o_fks_back : list (option (list sfk));    (* DeserializeForeignKeys (SerializeForeignKeys c) for each collection; None = error *)
+  o_fkflags : list bool                     (* per collection: serialization deterministic (twice / after the round trip: same bytes) *)
 }.
 Definition case := (input * obs)%type.
 
@@ -54,6 +60,16 @@ Fixpoint run_states (cands : list (seed_key * list N)) (s : st) (ds : list (ddl 
   end.
 
 Definition roundtrip (s : sschema) : option sschema := deserialize (fun x => Some x) (serialize (fun x => x) s).
+Definition fk_roundtrip_m (l : list sfk) : option (list sfk) := fk_deserialize (fun x => Some x) (fk_serialize (fun x => x) l).
+
+(* the inputs on which clause (c) of the oracle is claimed for the model: every executed statement is [create_safe] and none exhausts its fuel *)
+Fixpoint steps_safe (cands : list (seed_key * list N)) (s : st) (ds : list (ddl * bool)) : bool :=
+  match ds with
+  | [] => true
+  | (d, ok) :: ds' =>
+      if ok then create_safe s d && match step (rand_of cands) FUEL s d with Some s' => steps_safe cands s' ds' | None => false end
+      else steps_safe cands s ds'
+  end.
 
 Definition model_obs (i : input) : obs :=
   let s0 := {| head := []; work := []; other := [] |} in
@@ -62,37 +78,57 @@ Definition model_obs (i : input) : obs :=
   let '(l2, s2) := run_states (i_cands i) s1c (i_branch i) in
   {| o_states := l1 ++ l2; o_b2 := work s2; o_envb := work s2; o_merged := work s2; o_merge := 0;
      o_back := map roundtrip (i_schemas i);
-     o_flags := map (fun _ => true) (i_schemas i) |}.
+     o_flags := map (fun _ => true) (i_schemas i);
+     o_fks_back := map fk_roundtrip_m (i_fks i);
+     o_fkflags := map (fun _ => true) (i_fks i) |}.
 
-(* ---- comparison (tables as a set of (name, columns)) ---- *)
+Definition input_safe (i : input) : bool :=
+  let s0 := {| head := []; work := []; other := [] |} in
+  steps_safe (i_cands i) s0 (i_main i)
+  && (let '(_, s1) := run_states (i_cands i) s0 (i_main i) in
+      steps_safe (i_cands i) {| head := work s1; work := work s1; other := [] |} (i_branch i)).
+
+(* ---- comparison: roots as maps from table name to columns ---- *)
 Definition col_eqb (a b : col) : bool := beq_bytes (c_name a) (c_name b) && (c_kind a =? c_kind b) && (c_tag a =? c_tag b).
+Definition opt_cols_eqb (a b : option (list col)) : bool :=
+  match a, b with Some x, Some y => list_eqb col_eqb x y | None, None => true | _, _ => false end.
 Definition root_same (a b : root) : bool :=
-  Nat.eqb (List.length a) (List.length b)
-  && forallb (fun t => match lookup (fst t) b with Some cs => list_eqb col_eqb (snd t) cs | None => false end) a.
+  forallb (fun t => opt_cols_eqb (lookup (fst t) a) (lookup (fst t) b)) (a ++ b).
 
 Definition opt_schema_eqb (a b : option sschema) : bool :=
   match a, b with Some x, Some y => sschema_eqb x y | None, None => true | _, _ => false end.
+
+Definition opt_fks_eqb (a b : option (list sfk)) : bool :=
+  match a, b with Some x, Some y => list_eqb sfk_eqb x y | None, None => true | _, _ => false end.
 
 Definition obs_eqb (a b : obs) : bool :=
   list_eqb root_same (o_states a) (o_states b)
   && root_same (o_b2 a) (o_b2 b) && root_same (o_envb a) (o_envb b) && root_same (o_merged a) (o_merged b)
   && (o_merge a =? o_merge b)
   && list_eqb opt_schema_eqb (o_back a) (o_back b)
-  && list_eqb Bool.eqb (o_flags a) (o_flags b).
+  && list_eqb Bool.eqb (o_flags a) (o_flags b)
+  && list_eqb opt_fks_eqb (o_fks_back a) (o_fks_back b)
+  && list_eqb Bool.eqb (o_fkflags a) (o_fkflags b).
 
 (* ---- the property on the implementation's observation ---- *)
 Definition final_root (o : obs) : root := last (o_states o) [].
 
-Definition oracle (i : input) (o : obs) : bool :=
-  (* (a) faithful round trip, field by field *)
+(* (a) faithful round trip, field by field, and deterministic serialization — schemas and foreign key collections *)
+Definition oracle_a (i : input) (o : obs) : bool :=
   list_eqb opt_schema_eqb (o_back o) (map Some (i_schemas i))
   && forallb (fun b => b) (o_flags o) && Nat.eqb (List.length (o_flags o)) (List.length (i_schemas i))
-  (* (b) same DDL => same tags and schemas on the other branch, in the independent repository, and a clean merge *)
-  && root_same (final_root o) (o_b2 o) && root_same (final_root o) (o_envb o) && root_same (final_root o) (o_merged o)
-  && (o_merge o =? 0)
-  (* (c) tags pairwise distinct within every observed root *)
-  && forallb (fun r => distinct (root_tags r)) (o_states o)
+  && list_eqb opt_fks_eqb (o_fks_back o) (map Some (i_fks i))
+  && forallb (fun b => b) (o_fkflags o) && Nat.eqb (List.length (o_fkflags o)) (List.length (i_fks i)).
+(* (b) same DDL => same tags and schemas on the other branch, in the independent repository, and a clean merge *)
+Definition oracle_b (o : obs) : bool :=
+  root_same (final_root o) (o_b2 o) && root_same (final_root o) (o_envb o) && root_same (final_root o) (o_merged o)
+  && (o_merge o =? 0).
+(* (c) tags pairwise distinct within every observed root *)
+Definition oracle_c (o : obs) : bool :=
+  forallb (fun r => distinct (root_tags r)) (o_states o)
   && distinct (root_tags (o_b2 o)) && distinct (root_tags (o_envb o)) && distinct (root_tags (o_merged o)).
+
+Definition oracle (i : input) (o : obs) : bool := oracle_a i o && oracle_b o && oracle_c o.
 
 Definition check_case (c : case) : N :=
   (if obs_eqb (model_obs (fst c)) (snd c) then 0 else 1)
